@@ -5,7 +5,7 @@
 //   - import "sync/atomic" -> atomic "simrt/simatomic"
 //   - go f(x)              -> { f', x' := f, x; simrt.Go(func(){ f'(x') }) }   (operands evaluated by the spawner, as the language requires)
 //   - time.Sleep           -> simrt.Sleep
-//   - goutil.AtomicMap / goutil.RwMap -> simrt.NewMap
+//   - goutil.AtomicMap -> simrt.NewMap, goutil.RwMap -> simrt.NewRwMap
 //   - coarsetime.CeilingTimeNow / FloorTimeNow -> simrt.CeilingTimeNow / FloorTimeNow (the coarse clock is a
 //     real-time ticker started in init, outside any bubble; session-age read deadlines must read the fake clock)
 //   - utils.(*ByteBuffer).ChangeLen gets a leading simrt.AllocProbe(newLen)
@@ -136,7 +136,11 @@ func rewrite(path string) (bool, error) {
 				}
 				if rw.goutil != "" && id.Name == rw.goutil && (x.Sel.Name == "AtomicMap" || x.Sel.Name == "RwMap") {
 					id.Name = "simrt"
-					x.Sel.Name = "NewMap"
+					if x.Sel.Name == "RwMap" {
+						x.Sel.Name = "NewRwMap" // keeps the readers-writer locking discipline of the original
+					} else {
+						x.Sel.Name = "NewMap"
+					}
 					rw.needSim, rw.changed = true, true
 				}
 			}
